@@ -217,12 +217,47 @@ def _run_harness(hn, tier, seed, findings):
             if ob.result == "undecided" and agg["result"] == "proved":
                 agg["result"] = "undecided"
                 agg["reason"] = ob.reason
+                if _candidate_confirmed(hn, h, ob, agg, out, findings):
+                    break
         agg["solver_s"] = round(agg["solver_s"], 4)
         out["obligations"].append(agg)
         if agg["result"] == "undecided":
             out["undecided"].append({"obligation": agg["id"], "reason": agg.get("reason", "")})
     out["wall_s"] = round(time.time() - t0, 3)
     return out
+
+
+def _candidate_confirmed(hn, h, ob, agg, out, findings):
+    """An obligation neither solver decided is not a violation.  When quantifier instantiation saturated, the solver state is a candidate
+    counter-model; it is replayed on the real code (the harness' native replay of the clause).  Only a failure observed natively turns the
+    line into a VIOLATION (with the native failing input in the replay file); otherwise the obligation stays undecided."""
+    if hn.replay is None or getattr(ob, "candidate", None) is None:
+        return False
+    full_id = f"{hn.name}:{ob.id}"
+    if any(f.get("property") == hn.pid and f.get("obligation") == full_id and not f.get("fixed") for f in findings):
+        return False
+    ob.model = ob.candidate
+    values = model_values_safe(ob, h.inputs)
+    try:
+        rr = hn.replay(dict(values), ob.id)
+    except Exception:
+        return False
+    if not rr.get("failed"):
+        agg["candidate_replayed"] = "native replay of the candidate counter-model did not fail"
+        return False
+    agg["result"] = "failed"
+    agg["model"] = values
+    agg["note"] = "solver undecided (quantifier instantiation incomplete); candidate counter-model confirmed by a failing native replay on the real code"
+    out["violations"].append({"property": hn.pid, "obligation": full_id, "inputs": values, "solver_model": str(ob.model)[:4000],
+                              "function": ob.function, "lineno": ob.lineno, "detail": ob.detail + " | " + agg["note"], "kind": ob.kind, "replayed": True, "observed": rr})
+    return True
+
+
+def model_values_safe(ob, inputs):
+    try:
+        return vc.model_values(ob, inputs)
+    except Exception:
+        return {}
 
 
 def _handle_failure(hn, h, ob, agg, out, findings, timeout):
